@@ -443,3 +443,62 @@ pub fn main(_args: &[String]) -> i32 {
     let _ = std::fs::remove_dir_all(&scratch);
     0
 }
+
+/// `recover` mode: open directory images left by a simulated crash and read every key.
+/// stdin:  `R <dir> mfs=<n> <key>,<key>,...`
+/// stdout: `open:ok <key>=<result>,...` | `open:err:<text>` | `open:panic`
+pub fn recover_main(_args: &[String]) -> i32 {
+    quiet_panics();
+    let stdin = std::io::stdin();
+    let stdout = std::io::stdout();
+    let mut out = std::io::BufWriter::new(stdout.lock());
+    for line in stdin.lock().lines() {
+        let line = line.unwrap();
+        let mut it = line.split_whitespace();
+        if it.next() != Some("R") {
+            continue;
+        }
+        let dir = PathBuf::from(it.next().unwrap());
+        let mfs: u64 = it.next().unwrap().trim_start_matches("mfs=").parse().unwrap();
+        let keys: Vec<Vec<u8>> = it.next().unwrap_or("").split(',').filter(|s| !s.is_empty()).map(unhex).collect();
+        let mut c = parse_case("CASE r");
+        c.mfs = mfs;
+        let res = match std::panic::catch_unwind(|| make_config(&c, &dir).open()) {
+            Ok(Ok(kv)) => {
+                let h = kv.get_handle();
+                let mut items = Vec::new();
+                let mut dead = false;
+                for k in &keys {
+                    if dead {
+                        items.push(format!("{}=abandoned", hex(k)));
+                        continue;
+                    }
+                    let hh = h.clone();
+                    let kk = Bytes::from(k.clone());
+                    let r = match std::panic::catch_unwind(std::panic::AssertUnwindSafe(|| hh.get(kk))) {
+                        Ok(Ok(Some(v))) => format!("some:{}", hex(&v)),
+                        Ok(Ok(None)) => "none".to_string(),
+                        Ok(Err(e)) => format!("err:{}", e).replace(' ', "_").replace(',', ";"),
+                        Err(_) => {
+                            dead = true;
+                            "panic".to_string()
+                        }
+                    };
+                    items.push(format!("{}={}", hex(k), r));
+                }
+                // a recovered store must also accept a write
+                let w = match std::panic::catch_unwind(std::panic::AssertUnwindSafe(|| h.set(Bytes::from_static(b"__probe__"), Bytes::from_static(b"1")))) {
+                    Ok(Ok(())) => "ok".to_string(),
+                    Ok(Err(e)) => format!("err:{}", e).replace(' ', "_"),
+                    Err(_) => "panic".to_string(),
+                };
+                format!("open:ok {} write={}", items.join(","), w)
+            }
+            Ok(Err(e)) => format!("open:err:{}", e).replace(' ', "_"),
+            Err(_) => "open:panic".to_string(),
+        };
+        writeln!(out, "{}", res).unwrap();
+    }
+    out.flush().unwrap();
+    0
+}
